@@ -180,7 +180,7 @@ def gen_history(ctx, w, n_ops):
     rng = ctx.rng
     ops = []
     roots = [r for r in (w.root, w.root2, w.eroot) if rng.random() < (0.75 if r is not w.eroot else 0.08)]
-    aas = [a for a in (w.aa1, w.aa2, w.aa3) if rng.random() < 0.4]
+    aas = [a for a in (w.aa1, w.aa2, w.aa3) if rng.random() < 0.65]
     ats = [a for a in (w.at_a, w.at_c) if rng.random() < 0.2]
     ops.append(("new", roots, aas, ats))
     genuine_chain = [(w.at_a, w.aa1, w.root), (w.at_b, w.aa1, w.root), (w.at_c, w.aa2, w.root), (w.at_d, w.aa3, w.root2),
@@ -206,12 +206,17 @@ def gen_history(ctx, w, n_ops):
                 ch = [rng.choice(w.objs) for _ in range(k)]
             ops.append(("vseq", [c.certificate for c in ch]))
         else:
-            at = rng.choice(w.signers + [w.forged, w.escal, w.at_sub, w.emptyapp, w.at_suball])
-            psid = rng.choice(UNIVERSE + [36, 36, 37])
-            hi = {"psid": psid, "generationTime": gen_time(rng, w, at)}
+            if rng.random() < 0.6:
+                at = rng.choice([w.at_a, w.at_b, w.at_c, w.at_r])
+            else:
+                at = rng.choice(w.signers + [w.forged, w.escal, w.at_sub, w.emptyapp, w.at_suball])
+            own_app = [e["psid"] for e in at.certificate["toBeSigned"].get("appPermissions", [])] or UNIVERSE
+            psid = rng.choice(own_app) if rng.random() < 0.6 else rng.choice(UNIVERSE + [36, 36, 37])
+            gt = (w.now + 5) * 10**6 + rng.randrange(10**6) if rng.random() < 0.45 else gen_time(rng, w, at)
+            hi = {"psid": psid, "generationTime": gt}
             if psid == 37 and rng.random() < 0.8:
                 hi["generationLocation"] = {"latitude": 415000000, "longitude": 21000000, "elevation": 0xF000}
-            kind = rng.choice(["digest", "cert", "cert", "cert2"] if psid != 37 else ["cert", "cert", "digest"])
+            kind = rng.choice(["digest", "cert", "cert", "cert", "cert", "cert2"] if psid != 37 else ["cert", "cert", "cert", "digest"])
             if kind == "digest":
                 signer = ("digest", at.as_hashedid8())
             elif kind == "cert":
@@ -497,7 +502,12 @@ def run(ctx):
         worlds = ctx.scale(1, 12)
         per = ctx.scale(130, 1200)
         for wi in range(worlds):
-            w = World(ctx.rng)
+            try:
+                w = World(ctx.rng)
+            except Exception as e:  # noqa: BLE001 - the honest PKI is built through the repository's issuing API
+                ctx.violation(f"building an honest PKI (root -> AA without appPermissions -> ticket) through the issuing API "
+                              f"raised {type(e).__name__}: {e}", {"witness": "noapp"})
+                break
             check_histories(ctx, w, per, 25, f"w{wi}h")
         check_issuing(ctx, ctx.scale(300, 6000))
 
